@@ -18,7 +18,10 @@
     conversion), direct ext2fs_inline_data_set / _expand, ext2fs_punch, and ext2fs_mkdir in an inline directory until
     it is converted -- interleaved with set/remove of user attributes.  XattrPlace states what each of them does to
     the placement (system.data present iff EXT4_INLINE_DATA_FL: invariant DataIffInline) and the same per-step
-    validation applies.  Sizes come from the boundary catalogue fsizes_for() computed from the spec's constants."""
+    validation applies.  Sizes come from the boundary catalogue fsizes_for() computed from the spec's constants.
+    Each step also logs whether the inode and the peer name the same xattr block (acleq: must hold exactly while the
+    model says "shared"; this exposes a stale i_file_acl written back after a copy-on-write, fixes/C15_inline_set_stale_inode)
+    and the extent index blocks of value inodes (eameta: allocator layout of a > 4-block value file, bounded by the spec)."""
 import struct, os, sys, json, random, shutil, subprocess, time, threading, re, hashlib
 import concurrent.futures as cf
 from common import VERIF, fast_tmp, seed, die_broken, tool_env, run as crun
@@ -261,6 +264,23 @@ def observe(img, d, ino=None):
             r["free_blocks"], r["free_inodes"], r["gd_free_blocks"], r["gd_free_inodes"], d.get("fb"), d.get("fi")))
     st["gdok"] = 1 if gd else 0
     st["iblk"] = r["iblocks"]
+    # extent index blocks of the value inodes (a 64-block value written into fragmented free space needs one): layout of
+    # the value file, not of the attributes; the trace spec allows at most one per value inode of more than 4 blocks
+    metas = {}
+    for e in r["ibody"] + r["block"]:
+        if e["ea"]:
+            metas[e["ea"]["ino"]] = e["ea"]["meta"]
+    st["eameta"] = sum(metas.values())
+    # does the inode point at the SAME xattr block as the peer inode (shared), or at one of its own?
+    pa = 0
+    if d.get("peerino"):
+        im = xattrparse.Img(img)
+        try:
+            raw = im.raw_inode(d["peerino"])
+            pa = struct.unpack_from("<I", raw, 104)[0] | (struct.unpack_from("<H", raw, 118)[0] << 32)
+        finally:
+            im.close()
+    st["acleq"] = 1 if (r["file_acl"] and pa == r["file_acl"]) else 0
     st["inl"] = 1 if r["i_flags"] & xattrparse.INLINE_DATA_FL else 0
     st["isize"] = r["i_size"]
     st["ilen"] = d["ilen"]
@@ -477,7 +497,7 @@ def debugfs_step(b, env, img, work, cmd):
             m = re.search(r"^Size of inline data: (\d+)", s_, flags=re.M)
             if m:
                 ilen = int(m.group(1))
-    return ret, dict(gets=gets(lf, ""), pgets=[], peer=gets(lg, ".peer"), ilen=ilen), (first[0] if first else "")
+    return ret, dict(gets=gets(lf, ""), pgets=[], peer=gets(lg, ".peer"), ilen=ilen, peerino=13), (first[0] if first else "")
 
 
 def run_debugfs(b, env, base, img, work, pname, beh):
@@ -575,14 +595,15 @@ MC_RUNS = {
               ("i256inldir", [1, 4, 7], [0, 4, 68, 69, 500], [1], 4, True, dict(DNameLens=[3, 20, 40]))],
 }
 MC_RUNS["thorough"] = [
-    ("i256", [1, 2, 3, 4, 5, 6], [0, 1, 4, 67, 68, 69, 500, 967, 968, 969, 2000], [1, 2], 4, False),
+    # (value-length sets trimmed to the boundary triples: measured 62 min for the tier on a loaded machine with 11 lengths)
+    ("i256", [1, 2, 3, 4, 5, 6], [0, 4, 67, 68, 69, 500, 968, 969], [1, 2], 4, False),
     ("i256", [1, 2, 3, 4], [4, 68, 69, 500, 968], [1], 5, True),
     ("i128", [1, 2, 3, 4, 5, 6], [0, 1, 4, 500, 967, 968, 969, 2000], [1, 2], 4, True),
     ("i1024", [1, 2, 3, 4, 5, 6], [0, 1, 4, 500, 835, 836, 837, 967, 968, 969, 2000], [1], 4, False),
-    ("i256ea", [1, 2, 3, 4, 5, 6], [0, 1, 4, 67, 68, 69, 500, 967, 968, 969, 2000], [1], 4, False),
+    ("i256ea", [1, 2, 3, 4, 5, 6], [0, 4, 68, 69, 500, 968, 969, 2000], [1], 4, False),
     ("i256ea", [1, 2, 3, 4], [4, 68, 69, 500, 968, 969, 2000], [1, 2], 4, True),
     ("i128ea", [1, 2, 3, 4], [4, 500, 968, 969, 2000], [1], 5, True),
-    ("i256inl", [1, 2, 3, 4, 7], [0, 4, 44, 48, 49, 68, 500, 968, 969], [1, 2], 4, False),
+    ("i256inl", [1, 2, 3, 4, 7], [0, 4, 44, 48, 49, 68, 500], [1, 2], 4, False),
     ("i1024inlea", [1, 2, 4, 7], [4, 500, 816, 817, 836, 968, 969, 2000], [1], 4, True),
     ("i256inl", [1, 4, 7], [0, 4, 44, 68, 500], [1, 2], 4, True,
      dict(FSizes=[1, 60, 61, 104, 105, 128, 129, 1024, 1025, 3000])),
@@ -615,7 +636,7 @@ def model_check(ev, vd, tier, work):
         cfg2 = os.path.join(work, "SIM_%d.cfg" % k)
         consts["MaxOps"] = 12
         T.write_cfg(cfg2, spec="Spec", constants=consts, invariants=["TypeOK"] + INVS)
-        nsim = 200 if tier == "quick" else 3000
+        nsim = 200 if tier == "quick" else 1500
         r = T.tlc(os.path.join(SPEC, "XattrPlace.tla"), cfg2, workers=JOBS, timeout=600, xmx="4g", simulate=nsim, depth=13)
         if r.violated:
             vd.violation("model:" + str(r.violated), "invariant %s violated in XattrPlace simulation (%s)" % (r.violated, label), {"tlc": r.out[-4000:]})
@@ -880,14 +901,14 @@ def plan(tier, rng):
     if tier == "quick":
         n_lib, n_dbg, nops = 70, 8, 9
     else:
-        n_lib, n_dbg, nops = 1500, 120, 12
+        n_lib, n_dbg, nops = 900, 100, 12
     for pname in PROFILES:
         for i in range(n_lib):
             behs.append(dict(profile=pname, front="lib", persist=i % 2, ops=gen_history(rng, pname, nops if i % 3 else 5, "lib", tier)))
         if tier == "thorough":
             # exhaustive part: every pair of operations over 3 names x the boundary value lengths of the profile (1 tag)
             p = PROFILES[pname]
-            nm = [1, 2, 4] if not p["inline"] else [1, 4, DATA]
+            nm = [1, 2, 4] if not p["inline"] or p.get("isdir") else [1, 4, DATA]      # system.data is never set directly on a directory
             vs = [v for v in vlens_for(p, "quick") if v not in (1, 30, 200, 1025)]
             alpha = [["set", n, v, 1] for n in nm for v in vs if n != DATA or v <= ibspace(p["isz"])] + [["rm", n] for n in nm if n != DATA]
             for a in alpha:
